@@ -197,6 +197,11 @@ PENDING = {
         "sort_values(npartitions='auto'): the documented value reaches RepartitionQuantiles as a string (C40_09)",
     "set_index:npartitions=auto:TypeError@dataframe/dask_expr/_quantiles.py:_layer":
         "set_index(npartitions='auto'): same (C40_09)",
+    "shuffle:float-key-with-negative-and-positive-zero:key-in-two-partitions":
+        "a float key holding -0.0 and 0.0: pandas hashes the bit pattern, the equal keys land in different partitions (C40_10)",
+    "drop_duplicates:float-key-with-negative-and-positive-zero:keys": "same: both zeros survive (C40_10)",
+    "unique:float-key-with-negative-and-positive-zero:values": "same: both zeros are returned (C40_10)",
+    "nunique:float-key-with-negative-and-positive-zero:value": "same: the zero is counted twice (C40_10)",
     "dedup:pre-shuffled&single-input-partition&split_out>1:AssertionError@dataframe/dask_expr/_repartition.py:_partitions_boundaries":
         "unique/drop_duplicates/nunique(split_out>1) on a one-partition frame with partitioning knowledge: split_out partitions are "
         "reported, one exists; compute() asserts (repaired by C38_10)",
@@ -430,6 +435,15 @@ def _ext_case(rx):
             c["nrows"] = max(c["nrows"], 24)
             c["split_every"] = rx.choice((2, 2, 3))
             c["split_out"] = rx.choice((1, 1, 2, True))
+    if op in ("shuffle", "dedup") and rx.random() < 0.1 and "pre" not in x and "ser" not in x:
+        x["pmzero"] = True                # the float column c holds -0.0 and 0.0, and it is (part of) the key
+        if op == "shuffle":
+            c["on"] = ["c"] + ([v for v in c["on"] if v != "c"][:1] if isinstance(c["on"], list) and rx.random() < 0.3 else [])
+            c["onform"] = "list"
+        else:
+            c["scol"] = "c"
+            c["dcols"] = ["c"] + [v for v in c["dcols"] if v != "c"][:rx.choice((0, 0, 1))]
+            c["split_out"] = rx.choice((True, 2, 3, 5))
     c["x"] = x
     return c
 
@@ -523,6 +537,14 @@ def make_frame(case):
     if n:
         tn[r.random(n) < 0.2] = pd.NaT
     pdf["tn"] = tn.values
+    if (case.get("x") or {}).get("pmzero") and n >= 4:
+        # value class: a float key holding BOTH zeros (equal values with different bit patterns)
+        c = pdf["c"].to_numpy().copy()
+        c[r.permutation(n)[:max(2, n // 6)]] = 0.0
+        c[r.permutation(n)[:max(2, n // 6)]] = -0.0
+        if not (np.signbit(c[c == 0]).any() and (~np.signbit(c[c == 0])).any()):
+            c[0], c[1] = 0.0, -0.0
+        pdf["c"] = c
     pdf["u"] = r.permutation(n).astype("int64")
     pdf["f"] = np.round(r.integers(0, max(2, 2 * n), n) / 4.0, 2)
     return pdf
@@ -546,6 +568,26 @@ def _norm(v):
     except (TypeError, ValueError):
         pass
     return v
+
+
+PMZ = "float-key-with-negative-and-positive-zero"
+
+
+def _pm_zero(obj):
+    """input-feature predicate: a float key column holds both -0.0 and 0.0 (equal values, different bit patterns: they are
+    hashed apart - one mechanism for every hash-partitioned operation)"""
+    import numpy as np
+    import pandas as pd
+
+    cols = [obj.iloc[:, i] for i in range(obj.shape[1])] if isinstance(obj, pd.DataFrame) else [pd.Series(obj)]
+    for c in cols:
+        if str(c.dtype) not in ("float64", "float32"):
+            continue
+        v = c.to_numpy()
+        z = v == 0
+        if z.any() and np.signbit(v[z]).any() and (~np.signbit(v[z])).any():
+            return True
+    return False
 
 
 def key_tuples(df):
@@ -1002,7 +1044,9 @@ def _shuffle(case, ctx, pdf, ddf):
             if t in seen and seen[t] != i:
                 na = any(v is None for v in t)
                 kinds = "+".join(sorted({_kindof(dt) for dt, v in zip(kf.dtypes, t) if v is None})) if na else ""
-                ctx.violation("%s:%s:key-in-two-partitions%s" % (feat, view, ":na-key(%s)" % kinds if na else ""),
+                pmz = any(isinstance(v, float) and v == 0 for v in t) and _pm_zero(keyframe(_concat([q for q in parts if len(q)], p)))
+                ctx.violation("shuffle:%s:key-in-two-partitions" % PMZ if pmz else
+                              "%s:%s:key-in-two-partitions%s" % (feat, view, ":na-key(%s)" % kinds if na else ""),
                               "key %r occurs in output partitions %d and %d" % (t, seen[t], i), case=desc,
                               partition_lengths=[len(q) for q in parts])
                 break
@@ -1697,7 +1741,8 @@ def _dedup(case, ctx, pdf, ddf):
         kc = sub or cols
         m = F.compare(got[kc], exp[kc], ordered=False, check_index=False)
         if m is not None:
-            ctx.violation("drop_duplicates:frame%s:%s:%s:keys-%s" % ("&pre-shuffled" if kind == "preshuffled" else "",
+            ctx.violation("drop_duplicates:%s:keys" % PMZ if _pm_zero(p2[kc]) and spath != "tree-reduce" else
+                          "drop_duplicates:frame%s:%s:%s:keys-%s" % ("&pre-shuffled" if kind == "preshuffled" else "",
                                                                      "subset" if sub else "whole-row", spath, m[0]),
                           "surviving keys differ from pandas (as multisets): %s" % m[1], case=desc)
             return
@@ -1733,7 +1778,8 @@ def _dedup(case, ctx, pdf, ddf):
         ctx.count("nunique_checked")
         m = F.compare(got, exp, ordered=True, check_names=False)
         if m is not None:
-            ctx.violation("%s:%s" % (feat, m[0]), "DataFrame.nunique differs from pandas: %s" % m[1], case=desc)
+            ctx.violation("nunique:%s:value" % PMZ if _pm_zero(p2) and axis == 0 else "%s:%s" % (feat, m[0]),
+                          "DataFrame.nunique differs from pandas: %s" % m[1], case=desc)
         return
     if kind == "index":
         iop = case["iop"]
@@ -1786,7 +1832,8 @@ def _dedup(case, ctx, pdf, ddf):
         ctx.count("drop_duplicates_checked")
         ctx.distinct("dedup_feature", feat)
         if not isinstance(got, pd.Series) or _valuelist(got) != _valuelist(exp):
-            ctx.violation("drop_duplicates:series:%s:%s:keys-values" % (dk, spath),
+            ctx.violation("drop_duplicates:%s:keys" % PMZ if _pm_zero(ps) and spath != "tree-reduce" else
+                          "drop_duplicates:series:%s:%s:keys-values" % (dk, spath),
                           "got %s, pandas %s" % (_valuelist(got)[:12], _valuelist(exp)[:12]), case=desc)
             return
         if x.get("serpre"):
@@ -1806,7 +1853,8 @@ def _dedup(case, ctx, pdf, ddf):
         ctx.count("unique_checked")
         ctx.distinct("dedup_feature", feat)
         if _valuelist(got) != _valuelist(exp):
-            ctx.violation(feat + ":values", "got %s, pandas %s" % (_valuelist(got)[:12], _valuelist(exp)[:12]), case=desc)
+            ctx.violation("unique:%s:values" % PMZ if _pm_zero(ps) and spath != "tree-reduce" else feat + ":values",
+                          "got %s, pandas %s" % (_valuelist(got)[:12], _valuelist(exp)[:12]), case=desc)
         elif isinstance(got, pd.Series) and got.name != sc:
             ctx.violation(feat + ":name", "unique() result is named %r, the series %r" % (got.name, sc), case=desc)
         return
@@ -1822,6 +1870,7 @@ def _dedup(case, ctx, pdf, ddf):
         ctx.count("nunique_checked")
         ctx.distinct("dedup_feature", feat)
         if F.compare(got, exp) is not None:
-            ctx.violation(feat + ":value", "Series.nunique %r, pandas %r" % (got, exp), case=desc)
+            ctx.violation("nunique:%s:value" % PMZ if _pm_zero(ps) and spath != "tree-reduce" else feat + ":value",
+                          "Series.nunique %r, pandas %r" % (got, exp), case=desc)
         return
     raise ValueError(kind)
